@@ -8,6 +8,13 @@ Byte streams built by the independent `harness.reftcp` are pushed through
 written to the transport is judged by a small model of the statement.
 End-to-end clauses run a real `Context` (tcpclient / tcpserver) whose
 `loop.create_connection` / `loop.create_server` hand out the same fake transports.
+
+Three things are judged without any model of the stream, because a stream transport delivers nothing after
+close(): nothing is handed to the token manager once the endpoint has closed its transport (whatever shares a chunk
+with the frame that ended the connection would not have been received had the cut fallen elsewhere), a request handed
+to a connection that has ended fails with a network error instead of being written into the void (the next block of
+a block-wise exchange whose first block arrived right before the end; a request addressed to the stale remote), and
+a frame ending in a bare payload marker (RFC 7252 section 3: a message format error) is an unparsable frame.
 """
 
 import random
@@ -18,26 +25,37 @@ LEVEL = "exploration"
 TECHNIQUE = (
     "differential runtime monitoring: real TcpConnection / TCPServer / TCPClient / Context on a fake asyncio stream "
     "transport and a virtual-time loop, fed reference-encoded RFC 8323 streams in exhaustive / single-byte / random "
-    "chunkings; dispatches, written bytes and close state judged against an independent framing codec and a model of the statement"
+    "chunkings; dispatches, written bytes and close state judged against an independent framing codec and a model of the statement; "
+    "every connection-ending frame (malformed classes incl. the bare payload marker, critical signalling options, undefined 7.xx codes, "
+    "Release, Abort) followed by further frames and cut at every single position, with a model-free 'nothing dispatched after close()' "
+    "oracle on the bare connection and, through a tap on the token manager, on the real Context; end-to-end scenarios with block-wise "
+    "exchanges (Block2 first block, 2.31 Continue) cut off by the connection end, responses/requests that come too late, chunks delivered "
+    "back to back or with loop iterations in between, and requests addressed to the remote of the ended connection"
 )
 LEVEL_TEXT = (
     "Held on every generated stream and chunking: all 2^(n-1) chunkings of every enumerated short stream "
     "(sequences of 1-4 tiny messages, <= 12 bytes; triples limited to <= 8 bytes in quick), single-byte / boundary-adversarial / random chunkings "
     "of generated sequences with body lengths across 12|13, 268|269, 65804|65805 and 70000, malformed / oversized frames at every "
-    "position, every signalling code with elective and critical option sweeps, and end-to-end Release/Abort/Ping/empty scenarios on a real Context; "
-    "says nothing about streams outside these generators."
+    "position (incl. frames ending in a bare payload marker, for request, response, signalling and empty codes), every signalling code with elective "
+    "and critical option sweeps, every kind of connection-ending frame followed by 1-3 further frames with every single cut position, and end-to-end "
+    "Release/Abort/own-Abort/Ping/empty scenarios on a real Context (client role, reversed role, server) in which block-wise exchanges are cut off after "
+    "their first block, responses and requests follow the connection-ending frame, chunks arrive back to back or with 1-3 loop iterations in between, "
+    "and a request is addressed to the ended connection before and after connection_lost; says nothing about streams and schedules outside these generators."
 )
-LEVEL_NOTE = "Trusted: harness/reftcp.py (self-tested each run, imports nothing from aiocoap), the fake transport's mimicry of asyncio (no data_received after close(), connection_lost via call_soon, writes after close dropped), the model in checks/c15.py analyse()/judge()."
+LEVEL_NOTE = "Trusted: harness/reftcp.py (self-tested each run, imports nothing from aiocoap), the fake transport's mimicry of asyncio (no data_received after close(), connection_lost via call_soon, writes after close dropped), the model in checks/c15.py analyse()/judge(), the tap on the pool's token manager (process_request/process_response wrapped per scenario; if the attribute disappears the required monitor e2e_dispatch_tap stays at zero -> inconclusive)."
 RULE = (
     "a case is one (stream, role, chunking) fed to a fresh connection, one outgoing message, or one end-to-end scenario; "
     "non-trivial when the stream has >= 2 chunks or a non-signalling message or a stop item; distinct = distinct "
-    "(section, role, item kinds with length classes, chunking class and chunk count class, outcome) signatures"
+    "(section, role, item kinds with length classes, chunking class and chunk count class, outcome) signatures; end-to-end signatures add request "
+    "shapes, which requests got only a first block, whether a late response/request follows, pacing and stale-remote timing"
 )
 ASSUMPTIONS = [
     "harness/reftcp.py is a correct reading of RFC 8323 section 3.2 and RFC 7252 section 3.1 (self-tested each run)",
     "a frame is 'longer than the local maximum message size' when its total length (first header byte to end of payload, RFC 8323 5.3.1) exceeds the Max-Message-Size the endpoint advertised in its own CSM",
-    "'unparsable frame' is judged for: option value / extended field running past the frame end, nibble 15 outside the payload marker, invalid UTF-8 in a critical string option of a request; a payload marker followed by no payload and invalid UTF-8 in elective string options are only counted",
-    "what happens to anything other than a CSM arriving before the peer's CSM, to frames following a frame that must be aborted, and to frames following Release/Abort is left open (only 'not dispatched before CSM' is judged there)",
+    "'unparsable frame' is judged for: option value / extended field running past the frame end, nibble 15 outside the payload marker, invalid UTF-8 in a critical string option of a request, a payload marker followed by no payload (RFC 7252 section 3: 'MUST be processed as a message format error'; any code, incl. signalling and empty); invalid UTF-8 in elective string options is only counted",
+    "what happens to anything other than a CSM arriving before the peer's CSM, to an undefined signalling code (7.00, 7.06-7.31) and to an empty message with token or body is left open (tolerate or Abort; only 'not dispatched before CSM' is judged there)",
+    "a stream transport delivers nothing after close(): once the endpoint has called close() on its transport - whatever made it do so - nothing that follows in the stream may be handed to the token manager, else the dispatched set depends on where the stream was cut; a Pong written after close() is dropped by asyncio and only counted",
+    "a request handed to a connection whose transport is closing or closed (next block of a block-wise exchange, request addressed to the stale remote) must fail with aiocoap.error.NetworkError within bounded time; pending requests after the endpoint's OWN Abort are only counted (the statement names Release/Abort from the peer)",
     "signalling option numbers live in their own per-code space (RFC 8323 5.2): every odd number is an unknown critical option in 7.01-7.05 (known ones are 2 and 4), every even number must be ignored whatever its value",
     "asyncio drops writes issued after transport.close() (selector transport with empty buffer) and never calls data_received after close()",
 ]
@@ -46,17 +64,24 @@ REQUIRED_MONITORS = {
         "dispatch_equals_sent": 500000, "exhaustive_chunkings": 500000, "outgoing_bytes": 3000, "csm_gate": 50000, "abort_and_close": 100000, "abort_under_write_backlog": 20000,
         "oversize_abort": 8, "elective_sig_option_ignored": 10000, "critical_sig_option_abort": 10000, "ping_pong": 20000, "empty_ignored": 15000,
         "release_abort_fail_pending": 1000, "e2e_server": 1000, "e2e_outgoing_request": 1000, "no_escape": 500000, "own_csm": 2,
+        "no_dispatch_after_close": 400000, "marker_without_payload_abort": 30000, "afterstop_single_cut": 10000, "e2e_dispatch_tap": 4000,
+        "blockwise_followup_after_close": 500, "late_response_after_close": 300, "late_request_after_close": 300, "e2e_server_connection_end": 500,
+        "request_to_closed_connection": 1500,
     },
     "thorough": {
         "dispatch_equals_sent": 10000000, "exhaustive_chunkings": 10000000, "outgoing_bytes": 300000, "csm_gate": 1000000, "abort_and_close": 3000000, "abort_under_write_backlog": 600000,
         "oversize_abort": 300, "elective_sig_option_ignored": 300000, "critical_sig_option_abort": 300000, "ping_pong": 1000000, "empty_ignored": 1000000,
         "release_abort_fail_pending": 100000, "e2e_server": 100000, "e2e_outgoing_request": 100000, "no_escape": 10000000, "own_csm": 2,
+        "no_dispatch_after_close": 8000000, "marker_without_payload_abort": 800000, "afterstop_single_cut": 300000, "e2e_dispatch_tap": 200000,
+        "blockwise_followup_after_close": 30000, "late_response_after_close": 20000, "late_request_after_close": 20000, "e2e_server_connection_end": 30000,
+        "request_to_closed_connection": 80000,
     },
 }
 EXHAUSTIVE = {
-    "chunkings_of_short_streams": "all 2^(n-1) chunkings of every enumerated stream: every sequence [x], [x,y], [CSM,x,y] of <= 12 bytes and every [x,y,z], [CSM,x,y,z] of <= 8 bytes (quick) / <= 12 bytes (thorough) over the 21-message alphabet short_alphabet(); both roles",
+    "chunkings_of_short_streams": "all 2^(n-1) chunkings of every enumerated stream: every sequence [x], [x,y], [CSM,x,y] of <= 12 bytes and every [x,y,z], [CSM,x,y,z] of <= 8 bytes (quick) / <= 12 bytes (thorough) over the 22-message alphabet short_alphabet(); both roles",
     "bad_frame_positions": "every malformed / oversized class at every position 0..len of a 4-message base sequence",
     "signalling_option_sweep": "codes 7.01-7.05 x option numbers {elective, critical} lists x value shapes",
+    "single_cuts_around_connection_end": "every kind of connection-ending frame (6 malformed classes, critical option in 7.01-7.05, undefined 7.xx code, Release, Abort, empty-with-token) x 8 follower patterns x both roles: every single cut position of the stream, plus whole / single-byte / per-frame",
 }
 
 STRING = {3, 8, 11, 15, 20, 35, 39}
@@ -103,6 +128,8 @@ class FakeTransport:
         self.extra = {"peername": peername, "sockname": sockname}
         self.close_calls = 0
         self.out_at_close = None
+        self.tm = None  # recording token manager (bare rigs): lets close() note how much had been dispatched by then
+        self.mark_at_close = None
 
     # -- asyncio.Transport API ---------------------------------------------
     def write(self, data):
@@ -124,6 +151,8 @@ class FakeTransport:
             return
         self.closing = True
         self.out_at_close = len(self.out)
+        if self.tm is not None:
+            self.mark_at_close = len(self.tm.events)
         self.loop.call_soon(self._call_connection_lost, None)
 
     def abort(self):
@@ -331,6 +360,7 @@ class Rig:
         self.pool = pool
         self.conn = conn
         self.t = t
+        t.tm = self.tm
         conn.connection_made(t)
         self.csm_len = len(t.out)
         own = bytes(t.out)
@@ -382,7 +412,7 @@ class Item:
     __slots__ = ("kind", "data", "frame", "cls", "snap", "elective", "name")
 
     def __init__(self, kind, data, frame=None, cls=None, elective=None, name=None):
-        self.kind = kind  # req resp csm ping pong release abort empty emptyx bad sigcrit
+        self.kind = kind  # req resp csm ping pong release abort empty emptyx bad sigcrit sigunk
         self.data = data
         self.frame = frame
         self.cls = cls
@@ -424,6 +454,8 @@ def frame_item(rt, frame, elective=None, name=None):
         kind = SIG_NAMES[c]
     elif c == 0:
         kind = "empty" if data == b"\x00\x00" else "emptyx"
+    elif c >= 224:
+        kind = "sigunk"  # 7.00, 7.06-7.31: signalling codes RFC 8323 does not define
     else:
         raise ValueError("code outside the statement's classes: %r" % c)
     if kind in SIG_NAMES.values() and any(n & 1 for n, _ in frame.options):
@@ -477,6 +509,10 @@ def analyse(items):
         elif k == "emptyx":
             e.stop, e.stop_i = "emptyx", i
             break
+        elif k == "sigunk":
+            # neither the statement nor RFC 8323 say what an undefined 7.xx code does: tolerate or Abort, both accepted
+            e.stop, e.stop_i = "sigunk", i
+            break
     e.later = Counter(it.snap for it in items[e.stop_i + 1 :] if it.snap is not None) if e.stop else Counter()
     first_csm = None
     for i, it in enumerate(items):
@@ -529,7 +565,27 @@ def judge(env, rig, items, exp, case, chunks, section):
 
     def viol(key, what, **kw):
         bad.append(key)
-        rep.violation(key, what, wit(**kw), case)
+        v = rep.violations.get(key)
+        full = v is not None and len(v["witnesses"]) >= rep.MAX_WITNESSES_PER_KEY  # the reporter keeps no further witness
+        rep.violation(key, what, None if full else wit(**kw), case)
+
+    def closer_cause():
+        """Mechanism name of the first frame from the model's stop item on that can end the connection."""
+        for it in items[exp.stop_i :] if exp.stop is not None else []:
+            if it.kind in ("release", "abort"):
+                return "peer-" + it.kind
+            if it.kind in ("bad", "sigcrit"):
+                return "own-abort/" + it.cls
+            if it.kind == "sigunk":
+                return "own-abort/unknown-signalling-code"
+        return "unmodelled-close/" + (exp.stop or "clean-stream")
+
+    def unsent_key(default):
+        """A dispatched message nobody sent: when a frame that had to be aborted follows the stop item, it is that frame."""
+        for it in items[exp.stop_i + 1 :]:
+            if it.kind == "bad":  # (a "sigcrit" item has a signalling code: never a request/response)
+                return "abort/%s/bad-frame-dispatched" % it.cls
+        return default
 
     # ---- nothing may escape data_received ------------------------------------------------
     rep.monitor("no_escape")
@@ -552,6 +608,15 @@ def judge(env, rig, items, exp, case, chunks, section):
         pure = any(it.kind == "empty" for it in items)
         viol("empty/dispatched-as-%s" % ("request" if zero[0][0] == "req" else "response") + ("" if pure else "/with-token-or-body"), "an empty message (code 0.00) was handed to the token manager as a %s" % ("request" if zero[0][0] == "req" else "response"))
         got = [d for d in dispatched if d[1] != 0]
+
+    # ---- once the endpoint has closed its transport nothing more may be dispatched ----------------
+    # A stream transport delivers nothing after close(): whatever followed the closing frame in a LATER chunk is never
+    # seen. Handling what follows it in the SAME chunk makes the set of dispatched messages depend on the segmentation.
+    if t.closing and t.mark_at_close is not None:
+        rep.monitor("no_dispatch_after_close")
+        after = [d for d in dispatched[t.mark_at_close :] if d[1] != 0]
+        if after:
+            viol("dispatch-after-close/" + closer_cause(), "%d message(s) were handed to the token manager after the endpoint had closed its transport (frames sharing a chunk with the frame that ended the connection; in a later chunk they would never have been received)" % len(after), after_close=[snap_brief(s) for s in after[:4]])
 
     nd = len(exp.disp)
     # An Abort/close that came EARLIER than the model's stop item shows as missing dispatches or
@@ -630,8 +695,12 @@ def judge(env, rig, items, exp, case, chunks, section):
                 rep.monitor("critical_sig_option_abort")
             if exp.cls.startswith("oversize"):
                 rep.monitor("oversize_abort")
+            if exp.cls == "marker-without-payload":
+                rep.monitor("marker_without_payload_abort")
             if stray:
-                viol("abort/%s/bad-frame-dispatched" % exp.cls, "a frame that must be answered by Abort was handed to the token manager", extra=[snap_brief(s) for s in stray[:3]])
+                # a signalling frame is never a request/response: what was dispatched is a later bad frame if there is one
+                key = unsent_key("") if items[exp.stop_i].kind == "sigcrit" else ""
+                viol(key or "abort/%s/bad-frame-dispatched" % exp.cls, "a frame that must be answered by Abort was handed to the token manager", extra=[snap_brief(s) for s in stray[:3]])
             if extras and not stray:
                 rep.count("dispatch_after_own_abort")
             if rig.escape is None:
@@ -650,16 +719,26 @@ def judge(env, rig, items, exp, case, chunks, section):
         elif exp.stop == "precsm":
             rep.monitor("csm_gate")
             allowed = Counter(exp.after_csm)
+            sent_anywhere = {it.snap for it in items if it.snap is not None}
+            unended = next((k for k in range(exp.stop_i + 1, len(items)) if items[k].kind in ("bad", "sigcrit")), None)
             for s in got:
                 if allowed[s] > 0:
                     allowed[s] -= 1
+                elif s not in sent_anywhere and unsent_key(""):
+                    viol(unsent_key(""), "a frame that must be answered by Abort was handed to the token manager", msg=snap_brief(s))
+                    break
+                elif unended is not None and not t.closing and not aborts and s in {it.snap for it in items[unended + 1 :]}:
+                    # sent after a frame that had to end the connection and did not (a CSM ending in a bare payload marker
+                    # taken for the peer's CSM, for one): the missing Abort is the failure, the open gate its consequence
+                    viol("abort/%s/no-abort-no-close" % items[unended].cls, "neither Abort sent nor connection closed after a frame of class %s (messages that followed it were dispatched)" % items[unended].cls, msg=snap_brief(s))
+                    break
                 else:
                     viol("csm-gate/dispatched-before-csm", "a request/response was dispatched although the peer's CSM had not been received", msg=snap_brief(s))
                     break
             rep.count("precsm_outcome_" + ("abort" if aborts else ("closed" if t.closing else "tolerated")))
         elif exp.stop == "peerclose":
             if stray:
-                viol("dispatch/unsent-message", "a message that was never sent was dispatched", extra=[snap_brief(s) for s in stray[:3]])
+                viol(unsent_key("dispatch/unsent-message"), "a message that was never sent was dispatched", extra=[snap_brief(s) for s in stray[:3]])
             if extras and not stray:
                 rep.count("dispatch_after_peer_release_or_abort")
             errs = [e for e in rig.tm.errors if e is not None]
@@ -669,10 +748,10 @@ def judge(env, rig, items, exp, case, chunks, section):
                 rep.monitor("ping_pong")
             if pongs[: len(exp.pongs)] != exp.pongs and rig.escape is None and not early:
                 viol("ping/no-pong", "a Ping preceding Release/Abort was not answered with its token")
-        elif exp.stop == "emptyx":
+        elif exp.stop in ("emptyx", "sigunk"):
             if stray:
-                viol("dispatch/unsent-message", "a message that was never sent was dispatched", extra=[snap_brief(s) for s in stray[:3]])
-            rep.count("emptyx_outcome_" + ("abort" if aborts else ("closed" if t.closing else "tolerated")))
+                viol(unsent_key("dispatch/unsent-message"), "a message that was never sent was dispatched", extra=[snap_brief(s) for s in stray[:3]])
+            rep.count(exp.stop + "_outcome_" + ("abort" if aborts else ("closed" if t.closing else "tolerated")))
     if bad:
         outcome = "violation"
     return outcome
@@ -856,12 +935,42 @@ def gen_signal(rt, r, code, elective=False, critical=False):
     return frame_item(rt, rt.Frame(code, token, tuple(opts), payload), elective=el)
 
 
-BAD_CLASSES = ["tkl-above-8", "option-overruns-frame", "option-nibble-15", "option-ext-truncated", "non-utf8-string-option", "sig-critical-option"]
+def gen_sigunk(rt, r):
+    """A well-formed frame with a 7.xx code RFC 8323 does not define."""
+    code = r.choice(UNKNOWN_SIG_CODES)
+    return frame_item(rt, rt.Frame(code, gen_token(r) if r.random() < 0.3 else b"", r.choice([(), (), ((2, b"x"),), ((9, b""),)]), r.choice([b"", b"", b"diag"])))
 
 
-def gen_bad(rt, r, cls):
-    code = r.choice(REQ_CODES + RESP_CODES)
-    token = gen_token(r)
+BAD_CLASSES = ["tkl-above-8", "option-overruns-frame", "option-nibble-15", "option-ext-truncated", "non-utf8-string-option", "sig-critical-option", "marker-without-payload"]
+UNKNOWN_SIG_CODES = [0xE0, 0xE6, 0xE7, 0xF0, 0xFF]  # 7.00, 7.06, 7.07, 7.16, 7.31
+
+
+def gen_bad(rt, r, cls, code=None, token=None):
+    """A frame that must be answered by Abort + close. code / token pin what the end-to-end scenarios need to recognise."""
+    if cls == "marker-without-payload":
+        # RFC 7252 section 3 (the body format RFC 8323 3.2 inherits): "The presence of a marker followed by a zero-length
+        # payload MUST be processed as a message format error" - whatever the code and whatever options precede it
+        if code is None:
+            k = r.random()
+            code = r.choice(REQ_CODES + RESP_CODES) if k < 0.55 else (r.choice([rt.CSM, rt.PING, rt.PONG, rt.RELEASE, rt.ABORT]) if k < 0.9 else 0)
+        if token is None:
+            token = gen_token(r) if (code < 224 and code != 0) or code in (rt.PING, rt.PONG) or r.random() < 0.2 else b""
+        if code >= 224:
+            opts = r.choice([(), (), ((6, b""),), ((4, b""),) if code == rt.CSM else ((8, b"el"),)])
+        elif code == 0:
+            opts = ()
+        else:
+            opts = tuple(sorted([gen_option(r, critical_only=True) for _ in range(r.choice([0, 1, 1, 2]))], key=lambda o: o[0]))
+        body = rt.encode_options(opts) + b"\xff"
+        try:
+            rt.parse_body(body)
+        except rt.Malformed as e:
+            assert e.kind == cls, e.kind
+        else:
+            raise AssertionError("generator: body parses")
+        return Item("bad", rt.encode_raw(code, token, body), cls=cls)
+    code = code or r.choice(REQ_CODES + RESP_CODES)
+    token = gen_token(r) if token is None else token
     good = rt.encode_options(tuple(sorted([gen_option(r, critical_only=True) for _ in range(r.randrange(0, 3))], key=lambda o: o[0])))
     if cls == "tkl-above-8":
         tkl = r.randrange(9, 16)
@@ -893,7 +1002,7 @@ def gen_bad(rt, r, cls):
     if cls == "non-utf8-string-option":
         n = r.choice([3, 11, 15, 35, 39])  # critical string options
         v = r.choice([b"\xff", b"\xff\xfe", b"\xc3", b"ab\x80", b"\xe2\x82", b"\xed\xa0\x80"])
-        code = r.choice(REQ_CODES)
+        code = code if code is not None and rt.is_request(code) else r.choice(REQ_CODES)
         return Item("bad", rt.encode(rt.Frame(code, token, ((n, v),), r.choice([b"", b"x"]))), cls=cls)
     if cls == "sig-critical-option":
         code = r.choice([rt.CSM, rt.PING, rt.PONG, rt.RELEASE, rt.ABORT])
@@ -1024,6 +1133,7 @@ def short_alphabet(rt):
     add("bad-ext", Item("bad", bytes.fromhex("1001d0"), cls="option-ext-truncated"))
     add("bad-utf8", Item("bad", bytes.fromhex("2001b1ff"), cls="non-utf8-string-option"))
     add("bad-tkl9", Item("bad", bytes.fromhex("0901" + "11" * 9), cls="tkl-above-8"))
+    add("bad-marker", Item("bad", bytes.fromhex("1001ff"), cls="marker-without-payload"))
     assert a["csm-crit"].kind == "sigcrit" and a["emptyx"].kind == "emptyx" and a["empty"].data == b"\x00\x00"
     return a
 
@@ -1120,10 +1230,12 @@ class Sections:
         for i in range(n):
             if stop_at == i:
                 k = r.random()
-                if k < 0.7:
+                if k < 0.65:
                     items.append(gen_bad(rt, r, r.choice(BAD_CLASSES)))
-                else:
+                elif k < 0.93:
                     items.append(gen_signal(rt, r, r.choice([rt.RELEASE, rt.ABORT]), elective=r.random() < 0.2))
+                else:
+                    items.append(gen_sigunk(rt, r))
             k = r.random()
             if k < 0.55:
                 it = gen_message(rt, r)
@@ -1232,6 +1344,63 @@ class Sections:
                             self.sigopt_one(role, code, number, vi)
                             if code == rt.CSM:
                                 self.sigopt_one(role, code, number, vi, early=True)
+
+    # -- what follows the frame that ends the connection, cut at every single position ---------------
+    AFTERSTOP_CLOSERS = ["bad/" + c for c in BAD_CLASSES if c != "sig-critical-option"] + ["sigcrit/%d" % c for c in (0xE1, 0xE2, 0xE3, 0xE4, 0xE5)] + ["sigunk", "release", "abort", "emptyx"]
+    AFTERSTOP_FOLLOWERS = ["req", "resp", "ping+req", "req+resp+req", "csm+req", "empty+resp", "bad+req", "release+resp"]
+
+    def afterstop_one(self, role, closer, followers, v, only_ci=None):
+        rt = self.rt
+        r = self.rng("afterstop", closer, followers, v)
+        small = lambda kind: gen_message(rt, r, kind=kind, L=r.choice([0, 1, 5, 12, 13, 14]))  # noqa: E731
+        pre = [gen_csm(rt, r)]
+        if r.random() < 0.5:
+            pre.append(small(r.choice(["req", "resp"])))
+        what, _, arg = closer.partition("/")
+        if what == "bad":
+            c = gen_bad(rt, r, arg)
+        elif what == "sigcrit":
+            c = gen_signal(rt, r, int(arg), critical=True)
+        elif what == "sigunk":
+            c = gen_sigunk(rt, r)
+        elif what == "emptyx":
+            c = frame_item(rt, rt.Frame(0, gen_token(r) or b"\x01", (), r.choice([b"", b"x"])))
+        else:
+            c = gen_signal(rt, r, rt.RELEASE if what == "release" else rt.ABORT, elective=r.random() < 0.2)
+        tail = []
+        for f in followers.split("+"):
+            if f in ("req", "resp"):
+                tail.append(small(f))
+            elif f == "ping":
+                tail.append(gen_signal(rt, r, rt.PING))
+            elif f == "csm":
+                tail.append(gen_csm(rt, r))
+            elif f == "empty":
+                tail.append(self.alpha["empty"])
+            elif f == "bad":
+                tail.append(gen_bad(rt, r, r.choice(BAD_CLASSES)))
+            elif f == "release":
+                tail.append(gen_signal(rt, r, rt.RELEASE))
+        items = pre + [c] + tail
+        data = b"".join(it.data for it in items)
+        a = sum(len(it.data) for it in pre)
+        b = a + len(c.data)
+        cl = [("whole", [data]), ("single", [data[i : i + 1] for i in range(len(data))]), ("per-frame", chunk_cuts(data, [sum(len(it.data) for it in items[:k]) for k in range(1, len(items))]))]
+        for p in range(1, len(data)):
+            where = "before-closer" if p <= a else ("inside-closer" if p < b else ("at-closer-end" if p == b else "inside-followers"))
+            cl.append(("one-cut-" + where, [data[:p], data[p:]]))
+        self.rep.monitor("afterstop_single_cut", len(cl) if only_ci is None else 1)
+        self.run_stream("afterstop", role, items, cl, ["afterstop", role, closer, followers, v], only_ci, sample=(v == 0 and role == "client" and closer == "sigcrit/226" and followers == "resp"))
+
+    def afterstop(self):
+        k = 0
+        for v in range(1 if self.quick else 40):
+            for closer in self.AFTERSTOP_CLOSERS:
+                for followers in self.AFTERSTOP_FOLLOWERS:
+                    for role in ("server", "client"):
+                        k += 1
+                        if self.mine(k):
+                            self.afterstop_one(role, closer, followers, v)
 
     # -- frames around the advertised Max-Message-Size -----------------------------------------
     OVERSIZE_VARIANTS = ["at-max", "max+1", "max+1-tkl8", "max+1-tkl0-late", "max+1-first", "max+4096"]
@@ -1422,6 +1591,7 @@ class Sections:
             import aiocoap.resource as resource
 
             ctx = await aiocoap.Context.create_server_context(resource.Site(), transports=["tcpserver"], loggername="coap-server")
+        futs = []
         try:
             if role == "server":
                 if len(env.servers) != 1:
@@ -1430,23 +1600,33 @@ class Sections:
                 env.conns.append(env.servers[0].accept())
             nreq = r.choice([1, 1, 2, 3])
             sent = []
-            futs = []
+            shapes = []
             for j in range(nreq):
                 segs = [r.choice(["a", "sensor", "x" * 13, "ä"]) for _ in range(r.randrange(0, 3))]
-                put = r.random() < 0.4
-                payload = r.randbytes(r.choice([1, 12, 13, 268, 269, 700])) if put else b""
+                k = r.random()
+                # bigput: a body no single message may carry before the peer's CSM is known (RFC 8323 5.3.1 base value 1152):
+                # goes out as the first block of a Block1 transfer
+                shape = "get" if k < 0.5 else ("put" if k < 0.8 else "bigput")
+                put = shape != "get"
+                payload = b"" if shape == "get" else r.randbytes(r.choice([1, 12, 13, 268, 269, 700] if shape == "put" else [1200, 1500, 2048, 2500, 4100]))
                 if role == "client":
                     m = aiocoap.Message(code=aiocoap.PUT if put else aiocoap.GET, uri="coap+tcp://peer.example/" + "/".join(segs), payload=payload)
                 else:
                     m = aiocoap.Message(code=aiocoap.PUT if put else aiocoap.GET, uri_path=segs, payload=payload)
                     m.remote = env.conns[0].proto
                 sent.append((3 if put else 1, segs, payload))
+                shapes.append(shape)
                 futs.append(asyncio.ensure_future(ctx.request(m).response))
             await asyncio.sleep(0.001)
-            if len(env.conns) != 1:
-                rep.inconc("e2e client: expected one fake connection, got %d" % len(env.conns))
+            # requests racing for the first connection to a host may each have opened one; all but the one filed in the pool
+            # are given up again (how many were opened is the client's business, C18 looks at their fate)
+            live = [c for c in env.conns if not c.closing]
+            if len(live) != 1:
+                rep.inconc("e2e client: expected one live fake connection, got %d of %d" % (len(live), len(env.conns)))
                 return
-            t = env.conns[0]
+            if len(env.conns) > 1:
+                rep.count("e2e_client_surplus_connections_given_up", len(env.conns) - 1)
+            t = live[0]
             # ---- (b) what the real stack wrote: own CSM, then the requests ------------------
             rep.monitor("e2e_outgoing_request")
             try:
@@ -1456,10 +1636,25 @@ class Sections:
                 return
             reqs = [f for f in frames if rt.is_request(f.code)]
             okb = (not rest) and frames and frames[0].code == rt.CSM and len(reqs) == nreq and len(frames) == nreq + 1
+            block1 = {}  # request index -> Block1 value of a first block that announces more
             if okb:
-                for f, (code, segs, payload) in zip(reqs, sent):
+                for j, (f, (code, segs, payload)) in enumerate(zip(reqs, sent)):
                     want_opts = ([(3, b"peer.example")] if role == "client" else []) + [(11, s.encode("utf8")) for s in segs]
-                    if f.code != code or f.payload != payload or list(f.options) != want_opts or len(f.token) > 8:
+                    opts = list(f.options)
+                    b1 = [v for n, v in opts if n == 27]
+                    if shapes[j] == "bigput" and b1:
+                        # RFC 7959 2.2: first block NUM 0 with M set, carrying the first 2^(SZX+4) bytes; SZX 7 is BERT
+                        # (RFC 8323 6): a positive multiple of 1024. Size1 (RFC 7959 4) may announce the total length.
+                        v = int.from_bytes(b1[0], "big")
+                        szx, size = v & 7, len(f.payload)
+                        s1 = [int.from_bytes(x, "big") for n, x in opts if n == 60]
+                        if len(b1) != 1 or v >> 4 != 0 or not v & 8 or not 0 < size < len(payload) or payload[:size] != f.payload or (size != 1 << (szx + 4) if szx < 7 else size % 1024) or s1 not in ([], [len(payload)]):
+                            okb = False
+                        opts = [o for o in opts if o[0] not in (27, 60)]
+                        block1[j] = v
+                    elif f.payload != payload:
+                        okb = False
+                    if f.code != code or opts != want_opts or len(f.token) > 8:
                         okb = False
                 if len({f.token for f in reqs}) != len(reqs):
                     okb = False
@@ -1467,23 +1662,60 @@ class Sections:
                 rep.violation("outgoing/e2e-request-differs", "requests written by the client context do not decode (independently) to what the application sent", {"frames": [rt.describe(f) for f in frames[:6]], "rest": rest[:40].hex(), "sent": repr(sent)[:400]}, case)
                 return
             # ---- the scripted peer -----------------------------------------------------------------
+            # [CSM] responses (final ones, and first blocks of a longer exchange: Block2 with M set, 2.31 Continue) [Pong]
+            # CLOSER [Ping] [a response that comes too late]; CLOSER: Release / Abort from the peer, or a frame that makes the
+            # endpoint itself Abort (or, for an undefined 7.xx code, possibly not)
             items = []
             csm_first = r.random() < 0.85
             if csm_first:
                 items.append(gen_csm(rt, r, elective=r.random() < 0.1))
             answered = {}
-            if csm_first and r.random() < 0.5:
-                j = r.randrange(nreq)
-                pl = r.randbytes(r.choice([0, 5, 13, 269]))
-                items.append(frame_item(rt, rt.Frame(69, reqs[j].token, (), pl)))
-                answered[j] = pl
+            partial = {}
+            if csm_first:
+                resp = []
+                for j in range(nreq):
+                    k = r.random()
+                    if k < 0.25:
+                        pl = r.randbytes(r.choice([0, 5, 13, 269]))
+                        resp.append(frame_item(rt, rt.Frame(69, reqs[j].token, (), pl)))
+                        answered[j] = pl
+                    elif k < 0.6:
+                        if j in block1:
+                            v = block1[j]
+                            resp.append(frame_item(rt, rt.Frame(95, reqs[j].token, ((27, uint_bytes(v)),), b"")))
+                            partial[j] = "continue"
+                        else:
+                            szx = r.choice([0, 2, 6])
+                            resp.append(frame_item(rt, rt.Frame(69 if shapes[j] == "get" else 68, reqs[j].token, ((23, bytes([8 | szx])),), r.randbytes(1 << (szx + 4)))))
+                            partial[j] = "block2"
+                r.shuffle(resp)
+                items += resp
             if r.random() < 0.3:
                 items.append(gen_signal(rt, r, rt.PONG))
-            closer_code = r.choice([rt.RELEASE, rt.ABORT])
-            closer = gen_signal(rt, r, closer_code, elective=r.random() < 0.15)
+            k = r.random()
+            closer_kind = "release" if k < 0.36 else ("abort" if k < 0.72 else ("bad" if k < 0.93 else "sigunk"))
+            if closer_kind in ("release", "abort"):
+                closer_code = rt.RELEASE if closer_kind == "release" else rt.ABORT
+                closer = gen_signal(rt, r, closer_code, elective=r.random() < 0.15)
+                name = SIG_NAMES[closer_code]
+                cause = "peer-" + name
+            elif closer_kind == "bad":
+                closer = gen_bad(rt, r, r.choice(BAD_CLASSES))
+                name = None
+                cause = "own-abort/" + closer.cls.split("/7.")[0]
+            else:
+                closer = gen_sigunk(rt, r)
+                name = None
+                cause = "own-abort/unknown-signalling-code"
             items.append(closer)
             if r.random() < 0.3:
                 items.append(frame_item(rt, rt.Frame(rt.PING, b"\x09", (), b"")))
+            late = None
+            unanswered = [j for j in range(nreq) if j not in answered and j not in partial]
+            if unanswered and r.random() < 0.45:
+                late = r.choice(unanswered)
+                late_pl = r.randbytes(r.choice([0, 5, 13]))
+                items.append(frame_item(rt, rt.Frame(69, reqs[late].token, (), late_pl)))
             data = b"".join(it.data for it in items)
             starts = []
             p = 0
@@ -1491,13 +1723,38 @@ class Sections:
                 starts.append(p)
                 p += len(it.data)
             ccl, chunks = self.pick_chunking(r, data, starts)
-            self.feed_transport(t, chunks, case, "client context")
+            # schedule: chunks handed over back to back (what a TLS layer does with several records of one segment), or
+            # with the loop running in between (separate read events)
+            pace = r.choice([0, 0, 1, 3])
+            tap = self.tap_dispatch(t)
+            await self.feed_transport_paced(t, chunks, case, "client context", pace)
+            closed = t.closing
+            must_abort_unmet = False
+            if closer_kind == "bad":
+                rep.monitor("abort_and_close")
+                if closer.cls == "marker-without-payload":
+                    rep.monitor("marker_without_payload_abort")
+                try:
+                    aborted = any(f.code == rt.ABORT for f in rt.decode_stream(bytes(t.out))[0])
+                except rt.Malformed:
+                    aborted = False
+                w0 = {"local_role": role, "peer_items": [it.brief() for it in items], "chunking": ccl, "chunk_sizes": [len(c) for c in chunks][:40], "transport_closing": closed, "written": bytes(t.out)[-60:].hex()}
+                if not aborted and not closed:
+                    must_abort_unmet = True
+                    rep.violation("abort/%s/no-abort-no-close" % closer.cls, "neither Abort sent nor connection closed by the context after a frame of class %s" % closer.cls, w0, case)
+                elif not aborted:
+                    rep.violation("abort/%s/closed-without-abort" % closer.cls, "connection closed by the context but no Abort (7.05) written before the close for class %s" % closer.cls, w0, case)
+                elif not closed:
+                    must_abort_unmet = True
+                    rep.violation("abort/%s/abort-without-close" % closer.cls, "Abort written by the context but transport not closed for class %s" % closer.cls, w0, case)
+            stale = {}
+            if closed and not t.lost and r.random() < 0.5:
+                stale["closing"] = self.stale_request(ctx, t, case, "closing")  # transport closing, connection_lost still to come
             await asyncio.sleep(0.001)
             pending = [f for f in futs if not f.done()]
             if pending:
                 await asyncio.wait(pending, timeout=400)  # virtual seconds
             rep.monitor("release_abort_fail_pending")
-            name = SIG_NAMES[closer_code]
             outcome = "ok"
             # Requests answered before the closing message must have their response unless an unknown
             # elective signalling option precedes it (aiocoap may abort there: judged by the bare-connection
@@ -1509,44 +1766,164 @@ class Sections:
                     seen_elective = True
                 if it.kind == "resp":
                     clean_until[it.frame.token] = not seen_elective
+            late_requests = 0  # requests the stack wrote after it had closed the transport (asyncio drops them)
+            for x in t.late:
+                try:
+                    late_requests += sum(1 for f in rt.decode_stream(x)[0] if rt.is_request(f.code))
+                except rt.Malformed:
+                    pass
 
             def wit(**kw):
-                w = {"local_role": role, "requests": repr(sent)[:300], "peer_items": [it.brief() for it in items], "chunking": ccl, "chunk_sizes": [len(c) for c in chunks][:40], "csm_first": csm_first, "answered": sorted(answered)}
+                w = {"local_role": role, "requests": repr([(c, s_, len(p_)) for c, s_, p_ in sent])[:300], "peer_items": [it.brief() for it in items], "chunking": ccl, "chunk_sizes": [len(c) for c in chunks][:40], "loop_iterations_between_chunks": pace, "csm_first": csm_first, "answered": sorted(answered), "first_block_only": partial, "late_response_for": late, "transport_closing": closed, "requests_written_after_close": late_requests}
                 w.update(kw)
                 return w
 
+            def viol(key, what, **kw):
+                rep.violation(key, what, wit(**kw), case)
+                return "violation"
+
+            dispatched_late = self.judge_tap(tap, t, cause, wit, case)
+            if dispatched_late:
+                outcome = "violation"
+            if closed and partial:
+                rep.monitor("blockwise_followup_after_close")
+            if closed and late is not None:
+                rep.monitor("late_response_after_close")
             for j, f in enumerate(futs):
                 if j in answered:
                     if not f.done() or f.cancelled() or f.exception() is not None:
                         if not clean_until.get(reqs[j].token, False):
                             rep.count("e2e_response_after_elective_option_not_delivered")
                         elif csm_first:
-                            rep.violation("e2e-client/response-not-delivered", "a response sent after the CSM and before %s did not complete its request" % name, wit(request=j, state=repr(f)[:200]), case)
-                            outcome = "violation"
+                            outcome = viol("e2e-client/response-not-delivered", "a response sent after the CSM and before %s did not complete its request" % (name or "the closing frame"), request=j, state=repr(f)[:200])
                     elif bytes(f.result().payload) != answered[j] or int(f.result().code) != 69:
-                        rep.violation("e2e-client/response-differs", "the delivered response differs from the one sent", wit(request=j), case)
-                        outcome = "violation"
+                        outcome = viol("e2e-client/response-differs", "the delivered response differs from the one sent", request=j)
                     continue
+                delivered = f.done() and not f.cancelled() and f.exception() is None
+                if must_abort_unmet:
+                    outcome = "violation"  # reported above; what the requests do on a connection that wrongly stayed up says nothing
+                    continue
+                if closer_kind == "sigunk" and not closed:
+                    # the endpoint chose to tolerate the undefined code: the stream went on, a response after it counts
+                    rep.count("e2e_unknown_signalling_code_tolerated")
+                    if j == late and csm_first and not seen_elective and not delivered:
+                        outcome = viol("e2e-client/response-not-delivered", "a response sent after a tolerated undefined signalling code did not complete its request", request=j, state=repr(f)[:200])
+                    continue
+                if j == late and delivered and reqs[j].token in dispatched_late:
+                    # the response FOLLOWS the frame that ended the connection: received only because it shared a chunk with it
+                    outcome = viol("dispatch-after-close/e2e-response-delivered/" + cause, "a response that followed the connection-ending frame completed a request (the endpoint had already closed its transport; cut differently, the same stream fails the request)", request=j, state=repr(f)[:200])
+                    continue
+                followup = j in partial and late_requests > 0
                 if not f.done():
-                    rep.violation("peer-close/%s/pending-not-failed" % name, "a request pending on the connection was not failed after the peer's %s (still pending 400 virtual seconds later)" % name, wit(request=j), case)
-                    outcome = "violation"
+                    if followup:
+                        outcome = viol("send-after-close/request-never-completes/blockwise-followup", "a block-wise exchange whose first block was answered right before the connection ended never completed: the request for the next block was written to the closed transport (still pending 400 virtual seconds later)", request=j)
+                    elif name:
+                        outcome = viol("peer-close/%s/pending-not-failed" % name, "a request pending on the connection was not failed after the peer's %s (still pending 400 virtual seconds later)" % name, request=j)
+                    else:
+                        rep.count("e2e_pending_after_own_abort_not_failed")
+                elif not name and not followup:
+                    rep.count("e2e_pending_after_own_abort_" + ("failed" if not delivered else "completed"))  # the statement is silent
                 elif f.cancelled() or f.exception() is None:
-                    rep.violation("peer-close/%s/pending-completed-without-error" % name, "a pending, unanswered request completed without an error after the peer's %s" % name, wit(request=j, state=repr(f)[:200]), case)
-                    outcome = "violation"
+                    outcome = viol("peer-close/%s/pending-completed-without-error" % name if name else "send-after-close/blockwise-followup/completed-without-error", "a pending, unanswered request completed without an error after %s" % ("the peer's " + name if name else "the connection had been closed"), request=j, state=repr(f)[:200])
                 elif not isinstance(f.exception(), env.error.NetworkError):
                     ex = f.exception()
-                    rep.violation("peer-close/%s/not-a-network-error/%s" % (name, type(ex).__name__), "pending request failed with %s, which is not an aiocoap.error.NetworkError" % type(ex).__name__, wit(request=j, exc=repr(ex)), case)
-                    outcome = "violation"
+                    outcome = viol(("peer-close/%s/not-a-network-error/%s" % (name, type(ex).__name__)) if name else "send-after-close/blockwise-followup/not-a-network-error/%s" % type(ex).__name__, "pending request failed with %s, which is not an aiocoap.error.NetworkError" % type(ex).__name__, request=j, exc=repr(ex))
                 else:
                     rep.seen("pending_failure_types", type(f.exception()).__name__)
-            rep.case(("e2ec", role, nreq, csm_first, tuple(item_sig(it) for it in items), ccl, outcome), nontrivial=True)
+            # ---- a request addressed to the remote of the connection that has ended ---------------------------
+            if closed:
+                if r.random() < 0.7 or not stale:
+                    stale["lost"] = self.stale_request(ctx, t, case, "lost")
+                fs = [f for f in stale.values() if f is not None and not f.done()]
+                if fs:
+                    await asyncio.wait(fs, timeout=100)
+                for when, f in stale.items():
+                    if f is None:
+                        outcome = "violation"
+                        continue
+                    futs.append(f)
+                    rep.monitor("request_to_closed_connection")
+                    if not f.done():
+                        outcome = viol("send-after-close/request-never-completes/stale-remote", "a request addressed to a connection that had ended (%s) was written to the closed transport and never completed (still pending 100 virtual seconds later)" % ("transport closing, connection_lost still to come" if when == "closing" else "after connection_lost"), when=when)
+                    elif f.cancelled() or f.exception() is None:
+                        outcome = viol("send-after-close/stale-remote/completed-without-error", "a request addressed to a connection that had ended completed without an error", when=when, state=repr(f)[:200])
+                    elif not isinstance(f.exception(), env.error.NetworkError):
+                        ex = f.exception()
+                        outcome = viol("send-after-close/stale-remote/not-a-network-error/%s" % type(ex).__name__, "a request addressed to a connection that had ended failed with %s, which is not an aiocoap.error.NetworkError" % type(ex).__name__, when=when, exc=repr(ex))
+            rep.case(("e2ec", role, tuple(shapes), csm_first, tuple(item_sig(it) for it in items), tuple(sorted(partial.items())), late is not None, ccl, min(pace, 1), tuple(sorted(stale)), outcome), nontrivial=True)
             if i < 2:
-                rep.sample({"section": "e2e-client", "requests": repr(sent)[:200], "peer_items": [it.brief() for it in items], "chunking": ccl, "failures": [type(f.exception()).__name__ if f.done() and not f.cancelled() and f.exception() else "result" for f in futs]})
+                rep.sample({"section": "e2e-client", "requests": repr([(c, s_, len(p_)) for c, s_, p_ in sent])[:200], "peer_items": [it.brief() for it in items], "chunking": ccl, "loop_iterations_between_chunks": pace, "failures": [type(f.exception()).__name__ if f.done() and not f.cancelled() and f.exception() else ("result" if f.done() else "pending") for f in futs]})
         finally:
-            for f in futs if "futs" in locals() else []:
+            for f in futs:
                 if not f.done():
                     f.cancel()
             await self.shutdown_ctx(ctx)
+
+    def tap_dispatch(self, t):
+        """Observe 'messages handed to the token manager' on a real Context: -> list of (kind, token, transport was already
+        closing), or None when the pool object has no token manager to tap (the required monitor then stays at zero)."""
+        tm = getattr(getattr(t.proto, "_ctx", None), "_tokenmanager", None)
+        if tm is None or not hasattr(tm, "process_request") or not hasattr(tm, "process_response"):
+            return None
+        log = []
+        preq, presp = tm.process_request, tm.process_response
+
+        def process_request(msg):
+            log.append(("req", bytes(msg.token), t.closing))
+            return preq(msg)
+
+        def process_response(msg):
+            log.append(("resp", bytes(msg.token), t.closing))
+            return presp(msg)
+
+        tm.process_request = process_request
+        tm.process_response = process_response
+        return log
+
+    def judge_tap(self, log, t, cause, wit, case):
+        """Model-free: nothing reaches the token manager once the endpoint has closed its transport. -> tokens dispatched late"""
+        if log is None:
+            return set()
+        self.rep.monitor("e2e_dispatch_tap")
+        after = [(k, tok) for k, tok, closing in log if closing]
+        if after:
+            self.rep.violation("dispatch-after-close/e2e-%s-dispatched/%s" % ("request" if after[0][0] == "req" else "response", cause or "unmodelled-close"), "the context handed %d message(s) to its token manager after it had closed the transport (frames sharing a chunk with the frame that ended the connection)" % len(after), wit(dispatched_after_close=[(k, tok.hex()) for k, tok in after[:4]]), case)
+        return {tok for _, tok in after}
+
+    def stale_request(self, ctx, t, case, when):
+        """The application addresses a new request to the remote of a connection that has ended (as it may with the .remote
+        of an earlier response). -> future of its response, None if that already went wrong."""
+        import asyncio
+
+        aiocoap = self.env.aiocoap
+        m = aiocoap.Message(code=aiocoap.GET, uri_path=["after", when])
+        m.remote = t.proto
+        try:
+            return asyncio.ensure_future(ctx.request(m).response)
+        except self.env.error.NetworkError as e:
+            f = asyncio.get_running_loop().create_future()
+            f.set_exception(e)  # raising the network error right away is failing with a network error too
+            return f
+        except Exception as e:
+            self.rep.violation("send-after-close/stale-remote/request-raises/%s" % type(e).__name__, "Context.request() for a connection that had ended raised %s" % type(e).__name__, {"when": when, "tb": self.rep.exception_witness(e)}, case)
+            return None
+
+    async def feed_transport_paced(self, t, chunks, case, what, pace):
+        """feed_transport with `pace` loop iterations between two chunks."""
+        import asyncio
+
+        if not pace:
+            return self.feed_transport(t, chunks, case, what)
+        for ch in chunks:
+            try:
+                if not t.deliver(ch):
+                    return
+            except Exception as e:
+                self.rep.violation(escape_key(e), "TcpConnection.data_received let %s escape (%s)" % (type(e).__name__, what), {"tb": self.rep.exception_witness(e), "chunk": ch[:64].hex()}, case)
+                return
+            for _ in range(pace):
+                await asyncio.sleep(0)
+
 
     async def e2e_server_case(self, i):
         import asyncio
@@ -1557,6 +1934,7 @@ class Sections:
 
         case = ["e2es", i]
         r = self.rng("e2es", i)
+        late_hits = []
 
         class X(resource.Resource):
             async def render_get(self, request):
@@ -1566,9 +1944,15 @@ class Sections:
             async def render_post(self, request):
                 return aiocoap.Message(code=aiocoap.CHANGED, payload=bytes(request.payload))
 
+        class Late(resource.Resource):
+            async def render_get(self, request):
+                late_hits.append(1)
+                return aiocoap.Message(payload=b"late")
+
         site = resource.Site()
         site.add_resource(["x"], X())
         site.add_resource(["echo"], Echo())
+        site.add_resource(["late"], Late())
         del env.servers[:]
         ctx = await aiocoap.Context.create_server_context(site, transports=["tcpserver"], loggername="coap-server")
         try:
@@ -1598,6 +1982,30 @@ class Sections:
                     items.append(frame_item(rt, rt.Frame(rt.PING, tok, (), b"")))
                     want[(rt.PONG, tok, b"")] += 1
                     nping += 1
+            # ---- optionally the connection ends: a frame the server must Abort on (recognisable by its token where the class
+            # leaves the token intact), Release / Abort from the peer, or an undefined 7.xx code; then requests that come too late
+            tail = None
+            tail_kind = None
+            cause = None
+            bad_token = b"\xee" + r.randbytes(r.randrange(0, 7))
+            late_tokens = []
+            if r.random() < 0.45:
+                k = r.random()
+                tail_kind = "bad" if k < 0.6 else ("release" if k < 0.75 else ("abort" if k < 0.9 else "sigunk"))
+                if tail_kind == "bad":
+                    tail = gen_bad(rt, r, r.choice(BAD_CLASSES), code=r.choice([1, 2, 3]), token=bad_token)
+                    cause = "own-abort/" + tail.cls.split("/7.")[0]
+                elif tail_kind == "sigunk":
+                    tail = gen_sigunk(rt, r)
+                    cause = "own-abort/unknown-signalling-code"
+                else:
+                    tail = gen_signal(rt, r, rt.RELEASE if tail_kind == "release" else rt.ABORT)
+                    cause = "peer-" + tail_kind
+                items.append(tail)
+                for j in range(r.choice([0, 1, 1, 2])):
+                    tok = bytes([0xF0 + j]) + r.randbytes(r.randrange(0, 7))
+                    late_tokens.append(tok)
+                    items.append(frame_item(rt, rt.Frame(1, tok, ((11, b"late"),), b"")))
             data = b"".join(it.data for it in items)
             starts = []
             p = 0
@@ -1605,7 +2013,9 @@ class Sections:
                 starts.append(p)
                 p += len(it.data)
             ccl, chunks = self.pick_chunking(r, data, starts)
-            self.feed_transport(t, chunks, case, "server context")
+            pace = r.choice([0, 0, 1, 3])
+            tap = self.tap_dispatch(t)
+            await self.feed_transport_paced(t, chunks, case, "server context", pace)
             await asyncio.sleep(0.001)
             rep.monitor("e2e_server")
             if nempty:
@@ -1615,7 +2025,7 @@ class Sections:
             outcome = "ok"
 
             def wit(**kw):
-                w = {"items": [it.brief() for it in items], "chunking": ccl, "chunk_sizes": [len(c) for c in chunks][:40], "written_after_own_csm": bytes(t.out[own:])[:200].hex(), "closing": t.closing}
+                w = {"items": [it.brief() for it in items], "chunking": ccl, "chunk_sizes": [len(c) for c in chunks][:40], "loop_iterations_between_chunks": pace, "written_after_own_csm": bytes(t.out[own:])[:200].hex(), "writes_after_close": [x[:40].hex() for x in t.late[:4]], "closing": t.closing}
                 w.update(kw)
                 return w
 
@@ -1627,10 +2037,57 @@ class Sections:
             got = Counter((f.code, f.token, f.payload) for f in frames)
             missing = want - got
             extra = got - want
+            aborted = any(f.code == rt.ABORT for f in frames)
             if rest:
                 rep.violation("outgoing/e2e-bytes-not-frames", "a partial frame was written by the server context", wit(), case)
                 outcome = "violation"
-            if t.closing or any(f.code == rt.ABORT for f in frames):
+            if tail is not None:
+                rep.monitor("e2e_server_connection_end")
+                if tail_kind == "bad":
+                    rep.monitor("abort_and_close")
+                    if tail.cls == "marker-without-payload":
+                        rep.monitor("marker_without_payload_abort")
+                    if not aborted and not t.closing:
+                        rep.violation("abort/%s/no-abort-no-close" % tail.cls, "neither Abort sent nor connection closed by the server context after a frame of class %s" % tail.cls, wit(), case)
+                        outcome = "violation"
+                    elif not aborted:
+                        rep.violation("abort/%s/closed-without-abort" % tail.cls, "connection closed by the server context but no Abort (7.05) written before the close for class %s" % tail.cls, wit(), case)
+                        outcome = "violation"
+                    elif not t.closing:
+                        rep.violation("abort/%s/abort-without-close" % tail.cls, "Abort written by the server context but transport not closed for class %s" % tail.cls, wit(), case)
+                        outcome = "violation"
+                elif aborted or t.closing:
+                    rep.count("e2e_server_%s_outcome_%s" % (tail_kind, "abort" if aborted else "closed"))
+                else:
+                    rep.count("e2e_server_%s_outcome_tolerated" % tail_kind)
+                # responses written after close() never reach the wire but show what was processed
+                after_close = []
+                for x in t.late:
+                    try:
+                        after_close += rt.decode_stream(x)[0]
+                    except rt.Malformed:
+                        pass
+                for c, tk, p_ in list(extra) + [(f.code, f.token, f.payload) for f in after_close]:
+                    if tk == bad_token and tail_kind == "bad" and rt.is_response(c):
+                        rep.violation("abort/%s/bad-frame-answered" % tail.cls, "a frame that must be answered by Abort was processed as a request and answered %s" % rt.code_str(c), wit(response=(rt.code_str(c), tk.hex(), p_[:20].hex())), case)
+                        outcome = "violation"
+                dispatched_late = self.judge_tap(tap, t, cause, wit, case)
+                if dispatched_late:
+                    outcome = "violation"
+                if late_tokens and t.closing:
+                    rep.monitor("late_request_after_close")
+                    if late_hits and dispatched_late & set(late_tokens):
+                        rep.violation("dispatch-after-close/e2e-request-rendered/" + cause, "a request that followed the connection-ending frame was rendered by the site (received only because it shared a chunk with that frame)", wit(renderings=len(late_hits)), case)
+                        outcome = "violation"
+                known = {bad_token} | set(late_tokens)
+                for c, tk, p_ in extra:
+                    if c in (rt.ABORT, rt.PONG) or tk in known:
+                        continue
+                    rep.violation("e2e-server/unexpected-frame", "the server context wrote a frame nothing asked for", wit(frame=(rt.code_str(c), tk.hex(), p_[:20].hex())), case)
+                    outcome = "violation"
+            elif self.judge_tap(tap, t, None, wit, case):
+                outcome = "violation"
+            elif t.closing or aborted:
                 key = "sig-elective-option/aborted" + ("/non-utf8-value" if items[0].elective == "non-utf8" else "") if items[0].elective else "wellformed-stream/aborted"
                 rep.violation(key, "a well-formed stream made the server context abort/close", wit(), case)
                 outcome = "violation"
@@ -1651,11 +2108,12 @@ class Sections:
                     else:
                         rep.violation("e2e-server/unexpected-frame", "the server context wrote a frame nothing asked for", wit(frame=(rt.code_str(c), tk.hex(), p_[:20].hex())), case)
                     outcome = "violation"
-            rep.case(("e2es", tuple(item_sig(it) for it in items), ccl, outcome), nontrivial=True)
+            rep.case(("e2es", tuple(item_sig(it) for it in items), ccl, min(pace, 1), outcome), nontrivial=True)
             if i < 2:
-                rep.sample({"section": "e2e-server", "items": [it.brief() for it in items], "chunking": ccl, "written": [rt.describe(f) for f in frames[:6]]})
+                rep.sample({"section": "e2e-server", "items": [it.brief() for it in items], "chunking": ccl, "loop_iterations_between_chunks": pace, "written": [rt.describe(f) for f in frames[:6]]})
         finally:
             await self.shutdown_ctx(ctx)
+
 
     async def shutdown_ctx(self, ctx):
         try:
@@ -1689,13 +2147,10 @@ class Sections:
     def unjudged(self):
         rt = self.rt
         probes = {
-            "payload-marker-without-payload": ["00e1", "1001ff"],
             "unknown-signalling-code-7.06": ["00e1", "00e6", "2101a2b161"],
             "reserved-code-class-1.00": ["00e1", "0020"],
             "reserved-code-class-6.00": ["00e1", "00c0"],
             "header-announcing-4GiB-frame": ["00e1", "f0ffffffff"],
-            "request-in-same-chunk-after-csm-with-critical-option": ["10e110", "2101a2b161"],
-            "request-in-same-chunk-after-release": ["00e1", "00e4", "2101a2b161"],
             "non-utf8-in-elective-string-option-of-request": ["00e1", "200181ff"],
         }
         for name, hexes in probes.items():
@@ -1721,6 +2176,8 @@ class Sections:
             self.sigopt_one(case[1], case[2], case[3], case[4], early=bool(case[5]), only_ci=case[6] if len(case) > 6 else None)
         elif k == "oversize":
             self.oversize_one(case[1], case[2], case[3], only_ci=case[4] if len(case) > 4 else None)
+        elif k == "afterstop":
+            self.afterstop_one(case[1], case[2], case[3], case[4], only_ci=case[5] if len(case) > 5 else None)
         elif k == "outgrid":
             self.outgrid_one(*case[1:])
         elif k == "out":
@@ -1739,6 +2196,8 @@ def run_shard(shard, rep, only=None):
     import warnings
 
     warnings.simplefilter("ignore", DeprecationWarning)
+    # a request dispatched right before the frame that ends the connection: its rendering task is cancelled before its first step
+    warnings.filterwarnings("ignore", message="coroutine .* was never awaited", category=RuntimeWarning)
     env = Env(rep)
     try:
         s = Sections(env, shard, only)
@@ -1751,6 +2210,7 @@ def run_shard(shard, rep, only=None):
         s.sigopt()
         s.lengths()
         s.badpos()
+        s.afterstop()
         s.oversize()
         s.outgoing()
         s.seq()
